@@ -174,10 +174,12 @@ def instance_positions(layout: Layout) -> Dict[Tuple[int, int], int]:
 
 
 def check_order(pre: Layout, post: Layout, info, inserted: Sequence[Sequence[int]] = (), point: Optional[dict] = None,
-                slack: Optional[dict] = None, bpoint: Optional[dict] = None, keys_existing: bool = True, keys_inserted: bool = True,
+                slack: Optional[dict] = None, bpoint: Optional[dict] = None, zone: Optional[dict] = None, keys_existing: bool = True, keys_inserted: bool = True,
                 before_clause: bool = True, intact: bool = True) -> Optional[str]:
     """Order constraints of the property statement for an insertion-type edit.
 
+    ``zone[x]`` (batch_insert): number of op-tree items of x's index group when that group is a multi-op mid-circuit
+    EARLIEST insert; its operations may occupy the existing moments point .. point+zone-1.
     ``bpoint`` (default = point) is the index used by the "before" clause (insert_into_range: end of the range).
     ``inserted``: the op-tree items in the order the edit prescribes (an item = ids of one op or of one Moment);
     ``point[x]``: pre-edit moment index the item of x was inserted at; ``slack[x]``: the carve-out for several
@@ -215,7 +217,7 @@ def check_order(pre: Layout, post: Layout, info, inserted: Sequence[Sequence[int
         for j in range(i + 1, len(inserted)):
             for x in inserted[i]:
                 for y in inserted[j]:
-                    if x in point and y in point and point[x] < point[y] <= point[x] + slack.get(x, 0):
+                    if zone and x in point and y in point and point[x] < point[y] < point[x] + zone.get(x, 0):
                         continue  # batch_insert: y's insertion point lies inside the carve-out zone of x's group
                     if conflict(info[x], info[y], keys_inserted) and not ipos[x] < ipos[y]:
                         return (f"inserted conflicting operations id {x} then id {y} are not in the given order: "
